@@ -74,10 +74,18 @@ def gen_case(rng, i):
         loss = rng.choice([None, None, None, 0, 0, 1, 0.3, 0.5])
     case = {"kind": kind, "flavour": flavour, "arrivals": arr, "delays": delays, "loss": loss,
             "rseed": rng.randrange(1 << 30), "stat": stat,
-            "t0": 0 if stat else rng.choice([0, 0, 0, 2 ** 20, 2 ** 30 if flavour == "exact" else 1.7e9])}
+            "t0": 0 if stat else rng.choice([0, 0, 0, 2 ** 20, 2 ** 30 if flavour == "exact" else 1.7e9, -100, -37.5])}
+    if flavour == "exact" and not stat and kind == "wire" and rng.random() < 0.12:
+        # an integer clock far beyond 2**53 (nanosecond epoch counters): every instant and delay is an int
+        case["t0"] = rng.choice([10 ** 18 + 1, 2 ** 60 + 3, 1_700_000_000_000_000_001])
+        case["delays"] = [int(d * 4) for d in delays]
+        for a in arr:
+            a["t"] = int(a["t"] * 4)
+            a["split"] = 0
+        case["int_clock"] = True
     for a in arr:
         a["t"] += case["t0"]
-    if kind == "wire" and not stat and rng.random() < 0.15:
+    if kind == "wire" and not stat and not case.get("int_clock") and rng.random() < 0.15:
         # the loss rate is reconfigured while the simulation runs, at quiet moments between phases
         case["phases"] = [rng.choice([None, 0, 1, 1]) for _ in range(3)]
         case["loss"] = case["phases"][0]
@@ -163,6 +171,10 @@ def run_case(case, stats):
     random.seed(case["rseed"])
     if case.get("t0"):
         stats["big_clock_cases"] += 1
+    if case.get("t0", 0) < 0:
+        stats["negative_clock_cases"] += 1
+    if case.get("int_clock"):
+        stats["huge_int_clock_cases"] += 1
     if case["kind"] == "wire" and "phases" in case:
         return run_phased(case, stats, net)
     if case["kind"] == "wire":
@@ -325,7 +337,7 @@ def run_phased(case, stats, net):
 
 
 KEYS = ("big_clock_cases", "loss_reconfigured_cases", "loss_seed_comparisons", "deliveries_checked", "held_back_by_predecessor", "arrived_during_propagation", "loss_all_cases",
-        "loss_none_cases", "loss_stat_packets", "cable_cases", "receivers_returning_pending_events", "same_object_cases", "same_object_reentries")
+        "loss_none_cases", "loss_stat_packets", "cable_cases", "receivers_returning_pending_events", "same_object_cases", "same_object_reentries", "negative_clock_cases", "huge_int_clock_cases")
 
 
 def gen_same_object(rng):
